@@ -8,8 +8,10 @@ package ontid
 
 import (
 	"fmt"
+	"runtime"
 	"sort"
 	"strings"
+	"sync"
 	"testing"
 
 	"github.com/ontio/ontology-crypto/keypair"
@@ -446,17 +448,44 @@ func TestVerifOntIdReplay(t *testing.T) {
 	vhIn(&in)
 	out := vhOpenOut()
 	defer out.Close()
-	for pi, p := range in.Paths {
-		w := newOWorld(&in)
-		for _, a := range p.Setup {
-			if r, e := w.apply(a); r != "ok" {
-				panic(fmt.Sprintf("setup step %+v failed: %s %s", a, r, e))
+	newOWorld(&in) // registers the contract and creates the shared key pairs before the workers start
+	nw := vhEnvInt("VERIF_WORKERS", runtime.NumCPU())
+	var mu sync.Mutex
+	var wg sync.WaitGroup
+	next := 0
+	for k := 0; k < nw; k++ {
+		wg.Add(1)
+		go func() {
+			defer wg.Done()
+			for {
+				mu.Lock()
+				pi := next
+				next++
+				mu.Unlock()
+				if pi >= len(in.Paths) {
+					return
+				}
+				p := in.Paths[pi]
+				mu.Lock()
+				w := newOWorld(&in)
+				mu.Unlock()
+				for _, a := range p.Setup {
+					if r, e := w.apply(a); r != "ok" {
+						panic(fmt.Sprintf("setup step %+v failed: %s %s", a, r, e))
+					}
+				}
+				obs := []oObs{w.observe(pi, 0, "init", "")}
+				for si, a := range p.Steps {
+					r, e := w.apply(a)
+					obs = append(obs, w.observe(pi, si+1, r, e))
+				}
+				mu.Lock()
+				for _, o := range obs {
+					out.Emit(o)
+				}
+				mu.Unlock()
 			}
-		}
-		out.Emit(w.observe(pi, 0, "init", ""))
-		for si, a := range p.Steps {
-			r, e := w.apply(a)
-			out.Emit(w.observe(pi, si+1, r, e))
-		}
+		}()
 	}
+	wg.Wait()
 }
